@@ -31,5 +31,56 @@ pub fn handle_hexists(storage: &mut EngineModel, db: usize, parts: &[RespFrame])
 //@@ body
 //@@ end
 
+// ======================= HSET / HMSET: the field-value pairs =========================
+/// the (field, value) pairs the command names: arguments 2,3 / 4,5 / ...
+pub open spec fn hash_pairs(parts: Seq<RespFrame>) -> Seq<(Vec<u8>, Vec<u8>)> {
+    Seq::new(((parts.len() - 2) / 2) as nat, |j: int| (arg_vec(parts, 2 * j + 2)->Some_0, arg_vec(parts, 2 * j + 3)->Some_0))
+}
+/// `bytes.as_ref().clone()` on an Arc<Vec<u8>> (RT site): a copy of the argument
+#[verifier::external_body]
+pub fn verif_clone_arc_bytes(b: &Arc<Vec<u8>>) -> (r: Vec<u8>) ensures r == **b, { unimplemented!() }
+// C03: every pair reaches the engine, in argument order (so a later pair for the same field wins there: unit hset of shard_hashes), each field
+// with ITS value; one argument that is not a bulk string refuses the command before the engine is called
+//@@ unit hset_pairs stmts src/storage/commands/hashes.rs handle_hset "let mut field_values" upto "match storage.hset"
+//@@   opt same-return-type
+//@@   rewrite RT "bytes.as_ref().clone()" "verif_clone_arc_bytes(bytes)"
+//@@   rewrite RT "let mut field_values = Vec::new();" "let mut field_values: Vec<(Vec<u8>, Vec<u8>)> = Vec::new();"
+//@@   rewrite RFORK 0
+//@@   loop 0
+//@@|     invariant
+//@@|         parts@.len() >= 4, parts@.len() % 2 == 0, i__end == parts@.len(), i__k == 2, 2 <= i__n <= i__end, i__n % 2 == 0,
+//@@|         forall|j: int| 2 <= j < i__n ==> (#[trigger] parts@[j] matches RespFrame::BulkString(Some(_))),
+//@@|         field_values@.len() == (i__n - 2) / 2,
+//@@|         forall|j: int| 0 <= j < field_values@.len() ==> #[trigger] field_values@[j] == hash_pairs(parts@)[j],
+//@@|     decreases i__end - i__n,
+//@@   tail *out = field_values; Ok(RespFrame::ok())
+fn hset_pairs(parts: &[RespFrame], out: &mut Vec<(Vec<u8>, Vec<u8>)>) -> (r: Result<RespFrame>)
+    requires parts@.len() >= 4, parts@.len() % 2 == 0,
+    ensures
+        !all_bulk(parts@, 2) ==> (r matches Ok(f) && f is Error) && final(out)@ == old(out)@,
+        all_bulk(parts@, 2) ==> (r matches Ok(f) && !(f is Error)) && final(out)@ =~= hash_pairs(parts@),
+//@@ body
+//@@ end
+//@@ unit hmset_pairs stmts src/storage/commands/hashes.rs handle_hmset "let mut field_values" upto "match storage.hset"
+//@@   opt same-return-type
+//@@   rewrite RT "bytes.as_ref().clone()" "verif_clone_arc_bytes(bytes)"
+//@@   rewrite RT "let mut field_values = Vec::new();" "let mut field_values: Vec<(Vec<u8>, Vec<u8>)> = Vec::new();"
+//@@   rewrite RFORK 0
+//@@   loop 0
+//@@|     invariant
+//@@|         parts@.len() >= 4, parts@.len() % 2 == 0, i__end == parts@.len(), i__k == 2, 2 <= i__n <= i__end, i__n % 2 == 0,
+//@@|         forall|j: int| 2 <= j < i__n ==> (#[trigger] parts@[j] matches RespFrame::BulkString(Some(_))),
+//@@|         field_values@.len() == (i__n - 2) / 2,
+//@@|         forall|j: int| 0 <= j < field_values@.len() ==> #[trigger] field_values@[j] == hash_pairs(parts@)[j],
+//@@|     decreases i__end - i__n,
+//@@   tail *out = field_values; Ok(RespFrame::ok())
+fn hmset_pairs(parts: &[RespFrame], out: &mut Vec<(Vec<u8>, Vec<u8>)>) -> (r: Result<RespFrame>)
+    requires parts@.len() >= 4, parts@.len() % 2 == 0,
+    ensures
+        !all_bulk(parts@, 2) ==> (r matches Ok(f) && f is Error) && final(out)@ == old(out)@,
+        all_bulk(parts@, 2) ==> (r matches Ok(f) && !(f is Error)) && final(out)@ =~= hash_pairs(parts@),
+//@@ body
+//@@ end
+
 } // verus!
 fn main() {}
